@@ -51,6 +51,12 @@ def check_instant(rm, rep, name, events, seen):
                 gtxt = ' and '.join(g_.show(ctx)[:60] for g_ in skipping[0].guards[-2:])
                 ok, why = False, (f'under `{gtxt}` an iteration of the propagation loop does not assign {X}: that element keeps a stale '
                                   f'value and the pair is decoupled')
+            # ... and every element must be reached: a path that leaves the loop early (break / return) stops the walk before the
+            # motor side, whatever the test that decides it looks at
+            early = [p for p in L.paths if p.exit in ('break', 'return')]
+            if ok and early:
+                gtxt = ' and '.join(g_.show(ctx)[:60] for g_ in early[0].guards[-2:])
+                ok, why = False, (f'under `{gtxt}` the propagation loop is left before all upstream elements have received {X}: they keep stale values')
             for idx, attr, val, g in stores:
                 if not ok:
                     break
@@ -135,6 +141,9 @@ def check_recorder(model, rep):
 
 
 def check(model, rep):
+    # hidden state Python keeps outside the objects (not modelled by the evaluator): reported before anything else is evaluated
+    from checks.solver_common import package_lints as _package_lints
+    _package_lints(model, rep, 'C01.hidden-state', ('/solver.py', '/powertrain.py'))
     from checks.solver_common import absorb_arith, TIME_ARITH, EULER_ARITH, KIN_ARITH, TORQUE_ARITH
     absorb_arith(model, rep, 'C01.dep.arith', KIN_ARITH, solver_log=True)
     rep.explain('C01: Solver.run is inlined into an event structure over an abstract element array E[0..n-1] (sa.solver_ir); '
